@@ -8,7 +8,7 @@ Steps (all recorded in /verif/seeded/<seed-id>/meta.json):
   1. scratch worktree /tmp/seedwt (persistent build dir inside it, incremental): apply patch, build,
      run the full test suite (must be 61/61), run the demo (must fail)
   2. demo on the unmodified tree (/repo with /repo/_build) must pass
-  3. git -C /repo apply patch; ./check <property>; git -C /repo checkout -- .   (never committed)
+  3. ./check <property> with VERIF_REPO=<the patched scratch worktree>; patch reverted afterwards (never committed)
 """
 import json
 import os
@@ -60,20 +60,19 @@ def main():
         rc, o = sh('ctest --test-dir %s/_build -j8 --timeout 900 2>&1 | tail -4' % WT, env=env)
         m = re.search(r'(\d+)% tests passed, (\d+) tests failed out of (\d+)', o)
         meta['steps']['test_suite_with_change'] = {'rc': rc, 'summary': m.group(0) if m else o[-300:]}
-        rc, o = sh('sh %s %s' % (os.path.join(out, 'run.sh'), WT), cwd=out, env=env, timeout=900)
+        rc, o = sh('bash %s %s' % (os.path.join(out, 'run.sh'), WT), cwd=out, env=env, timeout=900)
         meta['steps']['demo_with_change'] = {'rc': rc, 'out': o[-600:], 'expected': 'non-zero'}
-    sh('git -C %s checkout -- .' % WT)
-    rc, o = sh('sh %s %s' % (os.path.join(out, 'run.sh'), '/repo'), cwd=out, env=env, timeout=900)
+    rc, o = sh('bash %s %s' % (os.path.join(out, 'run.sh'), '/repo'), cwd=out, env=env, timeout=900)
     meta['steps']['demo_without_change'] = {'rc': rc, 'out': o[-300:], 'expected': '0'}
-    # the check against the change, on /repo itself, undone straight afterwards
-    rc, o = sh('git -C /repo apply %s' % patch)
-    meta['steps']['apply_to_repo'] = {'rc': rc}
+    # the check against the change: the scratch worktree (same commit as /repo + the patch) is the tree under
+    # verification (VERIF_REPO), so /repo itself stays untouched and other runs are not disturbed
     t0 = time.time()
     try:
         rc, o = sh('./check %s --tier %s' % (prop, tier), cwd=VERIF, timeout=5400,
-                   env=dict(os.environ, VERIF_JOBS=os.environ.get('VERIF_JOBS', '12')))
+                   env=dict(os.environ, VERIF_JOBS=os.environ.get('VERIF_JOBS', '10'), VERIF_REPO=WT,
+                            VERIF_EVIDENCE_DIR='/tmp/seed-evidence'))
     finally:
-        sh('git -C /repo checkout -- .')
+        sh('git -C %s checkout -- .' % WT)
     viol = [l[:400] for l in o.splitlines() if l.startswith('VIOLATION')]
     und = [l[:300] for l in o.splitlines() if l.startswith('UNDECIDED')]
     meta['steps']['check_against_change'] = {'cmd': './check %s --tier %s' % (prop, tier), 'exit': rc, 'wall_s': round(time.time() - t0),
